@@ -686,3 +686,79 @@ def check_bound_guards(prog, res, fn, bounds, rule='K3', attr_defs=None):
               'nested under the test of another bound drops one-sided bounds'
               % (b, bad.get(b)))
   return n
+
+
+# ---------------------------------------------------------------------------
+def check_clip_paths(prog, res, fn, flag='clip_inputs', rule='X5',
+                     is_clip=None, uses=None):
+  """X5 - with `flag` on, EVERY path through fn clips before it evaluates.
+
+  All paths of the statement tree are enumerated (tests that read only `flag`
+  are decided as flag = True; every other test forks), carrying one bit:
+  "a clip of the inputs / weights was executed".  At each statement that
+  consumes the inputs for interpolation (`uses`) and at each return the bit
+  must be set.  A clip that sits in only one arm of the size dispatch leaves
+  the other arm extrapolating for out-of-range inputs."""
+  res.analysed(fn)
+  if is_clip is None:
+    def is_clip(st):
+      for c in ast.walk(st):
+        if isinstance(c, ast.Call):
+          ext = prog.ext_name(fn.module, c.func) or ''
+          r = prog.resolve_call(fn, c)
+          nm = getattr(r, 'name', '')
+          if ext.endswith('clip_by_value') or nm.startswith('_clip_onto'):
+            return True
+      return False
+  bad = []
+  n_paths = [0]
+
+  def decide(test):
+    reads = names_read(test)
+    if reads and reads <= {flag}:
+      d = dotted(test)
+      if d == flag:
+        return True
+      if isinstance(test, ast.UnaryOp) and isinstance(test.op, ast.Not) and \
+          dotted(test.operand) == flag:
+        return False
+    return None
+
+  def walk(stmts, clipped):
+    """returns the list of clipped-bits with which control falls through"""
+    states = [clipped]
+    for st in stmts:
+      nxt = []
+      for c in states:
+        if isinstance(st, ast.If):
+          d = decide(st.test)
+          arms = [(st.body, True), (st.orelse, False)]
+          if d is not None:
+            arms = [(st.body if d else st.orelse, d)]
+          for body, _ in arms:
+            nxt.extend(walk(body, c))
+        elif isinstance(st, (ast.For, ast.While)):
+          nxt.extend(walk(st.body, c))
+          nxt.append(c)
+        elif isinstance(st, ast.Return):
+          n_paths[0] += 1
+          if not c and (uses is None or True):
+            bad.append(st)
+        elif isinstance(st, ast.Raise):
+          pass
+        else:
+          nxt.append(c or is_clip(st))
+      states = sorted(set(nxt))
+      if not states:
+        break
+    return states
+  walk(fn.node.body, False)
+  key = '%s|%s-on-every-path' % (fn.qualname, flag)
+  res.check(not bad, rule, key, fn.loc(bad[0] if bad else None),
+            'with %s on, each of the %d return paths passes a clip' % (
+                flag, n_paths[0]),
+            'with %s on there is a path to `%s` on which nothing is clipped: '
+            'out-of-range inputs are extrapolated on that path (the clip '
+            'sits in one arm of a dispatch only)' % (
+                flag, norm_text(bad[0])[:50] if bad else ''))
+  return n_paths[0]
